@@ -149,13 +149,12 @@ func runC30(c *Ctx, rel, typeName string, floorTables int) {
 	}
 	c.Notef("%d %s literals, %d distinct entries", len(tables), typeName, total)
 
-	// ---- R5 HOOK (owned by the bounds-rule author, C10-B1) ---------------------------------------
-	// The slice/index bounds obligations on RangeMap.Encode / Decode / EncodeReplaceUnknown / DecodeRune /
-	// EncodeRune (str[:n] needs n <= len(str); entries[len(r)-1] needs 1 <= len(r) <= len(entries)) are NOT
-	// decided here. The bounds engine would be called at this point, e.g.
-	//     boundsRuleB1(c, pk, []string{"RangeMap.Encode", "RangeMap.Decode", "RangeMap.EncodeReplaceUnknown"})
-	// R0-R4 above only establish the table-side premises of those index expressions.
-	// -----------------------------------------------------------------------------------------------
+	// ---- R5: bounds of the kernels (engine eng_bounds.go; the same obligations are also registered under C10-B1).
+	// Exceptions inside the engine name the table-shape invariant R1 that the rules above establish.
+	if typeName == "RangeMap" && !c.fixtureMode {
+		c.Rule("C30-R5", "every index/slice expression of RangeMap.{Encode,Decode,EncodeReplaceUnknown,EncodeRune,DecodeRune} and rangeBounds.contains is in range on every path (zone-domain bounds engine); accesses that are in range only by the table shape rest on R1", 20)
+		BoundsCheckFuncs(c, "C30-R5", BoundsRangeMapKernels(c.P))
+	}
 }
 
 func c30ReadTable(c *Ctx, info *types.Info, name string, lit *ast.CompositeLit) *c30Table {
